@@ -27,7 +27,10 @@ EXTENDS CfbTree, Json, IOUtils, TLCExt, FiniteSetsExt
 CONSTANTS Ver,        \* 3 or 4
           Gaps,       \* free sectors left among the used ones
           SlotSlack,  \* extra directory slots beyond the needed ones
-          MiniGaps    \* free mini sectors left among the used ones
+          MiniGaps,   \* free mini sectors left among the used ones
+          Canonical   \* TRUE: slots, sectors and mini sectors are placed in order (lowest free position), so
+                      \* that the only choice left is the red-black shape of every sibling tree: exhaustive
+                      \* enumeration then yields every valid shape of the content exactly once
 
 DictAll == JsonDeserialize(IOEnv.DICT)
 Content == JsonDeserialize(IOEnv.CONTENT)
@@ -108,7 +111,9 @@ AssignSlot ==
   /\ phase = "slots"
   /\ IF Len(slotOf) = NN
      THEN /\ phase' = "shapes" /\ UNCHANGED <<slotOf, shapes, pos, mpos>>
-     ELSE /\ \E s \in (1..(NS - 1)) \ UsedSlots : slotOf' = Append(slotOf, s)
+     ELSE /\ \E s \in (1..(NS - 1)) \ UsedSlots :
+               /\ (Canonical => \A s2 \in (1..(NS - 1)) \ UsedSlots : s <= s2)
+               /\ slotOf' = Append(slotOf, s)
           /\ UNCHANGED <<phase, shapes, pos, mpos>>
 
 (* storages in a fixed order: 0 (root) first, then by id *)
@@ -127,7 +132,9 @@ PlaceSector ==
   /\ phase = "sectors"
   /\ IF Len(pos) = Len(LS)
      THEN /\ phase' = "minis" /\ UNCHANGED <<slotOf, shapes, pos, mpos>>
-     ELSE /\ \E p \in (0..(N - 1)) \ UsedPos : pos' = Append(pos, p)
+     ELSE /\ \E p \in (0..(N - 1)) \ UsedPos :
+               /\ (Canonical => \A p2 \in (0..(N - 1)) \ UsedPos : p <= p2)
+               /\ pos' = Append(pos, p)
           /\ UNCHANGED <<phase, slotOf, shapes, mpos>>
 
 UsedMini == {mpos[i] : i \in 1..Len(mpos)}
@@ -135,7 +142,9 @@ PlaceMini ==
   /\ phase = "minis"
   /\ IF Len(mpos) = NM
      THEN /\ phase' = "done" /\ UNCHANGED <<slotOf, shapes, pos, mpos>>
-     ELSE /\ \E m \in (0..(MI - 1)) \ UsedMini : mpos' = Append(mpos, m)
+     ELSE /\ \E m \in (0..(MI - 1)) \ UsedMini :
+               /\ (Canonical => \A m2 \in (0..(MI - 1)) \ UsedMini : m <= m2)
+               /\ mpos' = Append(mpos, m)
           /\ UNCHANGED <<phase, slotOf, shapes, pos>>
 
 Next == AssignSlot \/ ChooseShape \/ PlaceSector \/ PlaceMini
